@@ -84,11 +84,17 @@ def scen_from_behaviour(beh, idx, rng, plat, two_ctx):
         raise ValueError(va)
 
     alloc()
+    if plat != 'bench':
+        # a real kernel launch makes the driver allocate buffers of its own: allocate the model's buffers first,
+        # so that they stay adjacent and a range across two of them consists of bytes of live buffers
+        while nlive < len(bufs):
+            alloc()
     seed = 1000 * idx
     for a in common.acts_to_steps(beh):
         k = a['a']
         if k == 'Alloc':
-            alloc()
+            if nlive < len(bufs):
+                alloc()
         elif k == 'Copy':
             b, off = locate(a['va'])
             seed += 1
@@ -249,6 +255,9 @@ def run_c11(ctx, drv, mode, scen, name, extra=None):
     t = os.path.join(ctx.scratch, 'trace_%s.ndjson' % name)
     dump = os.path.join(ctx.scratch, 'scen_%s_out.json' % name)
     args = ['-mode', mode, '-out', t, '-dump', dump]
+    if mode == 'api':
+        # timing platforms: the port events of every GPU's real CP + DMA engine, as DMATrace traces
+        args += ['-sysout', os.path.join(ctx.scratch, 'trace_%s_sys.ndjson' % name)]
     if scen:
         sfile = os.path.join(ctx.scratch, 'scen_%s.json' % name)
         json.dump(scen, open(sfile, 'w'))
@@ -277,9 +286,14 @@ def run_c11(ctx, drv, mode, scen, name, extra=None):
     return t, json.load(open(dump)), stats
 
 
+def sys_trace(t):
+    p = t[:-len('.ndjson')] + '_sys.ndjson'
+    return p if os.path.exists(p) and os.path.getsize(p) > 0 else None
+
+
 def validate(ctx, tspec, trace, mode, scens):
     """Trace validation with deviation reporting.  Returns number of sub-traces accepted."""
-    info = {'cmd': 'c11', 'mode': mode, 'scenarios': scens}
+    info = {'cmd': 'c11', 'mode': mode, 'scenarios': scens, 'sys': tspec is T_DMA and mode == 'api'}
     v = ctx.validate_trace(tspec['dirs'], tspec['module'], tspec['cfg'], trace, timeout=tspec.get('timeout', 900),
                            heap=tspec.get('heap'))
     if not v['accepted']:
@@ -299,8 +313,8 @@ def validate(ctx, tspec, trace, mode, scens):
         sig = {'kind': 'deviation', 'deviation': name}
         what = '%s: the real code took the as-implemented deviation %r (scenario %s on %s, event #%d %s)' % (
             ctx.pid, name, tag, recs[0].get('plat', 'cp+dma'), line - start + 1, json.dumps(ev)[:200])
-        one = [s for s in scens if s.get('tag') == tag] or scens
-        ctx.report_failure(what, sig, {'driver': {'cmd': 'c11', 'mode': mode, 'scenarios': one},
+        one = [s for s in scens if s.get('tag') == str(tag).split(':gpu')[0]] or scens
+        ctx.report_failure(what, sig, {'driver': {'cmd': 'c11', 'mode': mode, 'scenarios': one, 'sys': info['sys']},
                                        'trace_spec': [tspec['dirs'], tspec['module'], tspec['cfg']],
                                        'failing_index': line - start + 1, 'trace': [_short(r) for r in recs[:400]]})
     return len(parts)
@@ -546,9 +560,12 @@ def run(ctx, selftest=False):
     t1, ex1, st1 = run_c11(ctx, drv, 'api', api_scen, 'tlc')
     ctx.log('replayed %d TLC behaviours on the real driver: %s' % (len(api_scen), st1))
     validate(ctx, T_API, t1, 'api', ex1)
+    sys_traces = [sys_trace(t1)]
     t2, ex2, st2 = run_c11(ctx, drv, 'api', mats + tgt, 'matrix')
     ctx.log('boundary matrix + targeted histories: %s' % st2)
     validate(ctx, T_API, t2, 'api', ex2)
+    sys_traces.append(sys_trace(t2))
+    sys_scen = {id(t): ex for t, ex in ((sys_traces[0], ex1), (sys_traces[1], ex2))}
     td1, exd1, std1 = run_c11(ctx, drv, 'dma', dma_scen, 'dmatlc')
     ctx.log('replayed %d TLC behaviours on the real CP + DMA engine: %s' % (len(dma_scen), std1))
     validate(ctx, T_DMA, td1, 'dma', exd1)
@@ -564,22 +581,35 @@ def run(ctx, selftest=False):
         ctx.log('random %s: %s' % (plat, st))
         validate(ctx, T_API, t, 'api', ex)
         traces.append(t)
-        events += st['events']
+        events += st['events'] + st.get('sys_events', 0)
+        if sys_trace(t):
+            sys_traces.append(sys_trace(t))
+            sys_scen[id(sys_traces[-1])] = ex
     td2, exd2, std2 = run_c11(ctx, drv, 'dma', None, 'dmarand', ['-random', 300 if thorough else 40, '-seed', ctx.seed])
     ctx.log('random CP + DMA environments: %s' % std2)
     validate(ctx, T_DMA, td2, 'dma', exd2)
     events += std1['events'] + std2['events']
 
+    # the real CP + DMA engine inside the timing platforms (real DRAM controllers, caches, connections)
+    sys_parts = []
+    for st_ in [x for x in (sys_traces if thorough else sys_traces[:2]) if x]:
+        validate(ctx, T_DMA, st_, 'api', sys_scen[id(st_)])
+        sys_parts += vlib.split_traces(st_)
+    ctx.log('CP + DMA engine inside the timing platforms: %d traces, %d events' % (
+        len(sys_parts), sum(len(r) for _, r in sys_parts)))
+    events += st1.get('sys_events', 0) + st2.get('sys_events', 0)
+
     # coverage accounting
     api_parts = [p for t in traces for p in vlib.split_traces(t)]
-    dma_parts = vlib.split_traces(td1) + vlib.split_traces(td2)
+    dma_parts = vlib.split_traces(td1) + vlib.split_traces(td2) + sys_parts
     strip = lambda recs: json.dumps([{k: v for k, v in r.items() if k not in ('seq', 'tag')} for r in recs], sort_keys=True)
     distinct = {strip(recs) for _, recs in api_parts + dma_parts}
     nt = sum(1 for _, recs in api_parts if api_nontrivial(recs)) + sum(1 for _, recs in dma_parts if dma_nontrivial(recs))
     worlds = {}
     for _, recs in api_parts:
         worlds[recs[0]['plat']] = worlds.get(recs[0]['plat'], 0) + 1
-    worlds['cp+dma'] = len(dma_parts)
+    worlds['cp+dma (bench)'] = len(dma_parts) - len(sys_parts)
+    worlds['cp+dma (inside timing platform)'] = len(sys_parts)
     ctx.sample({'api_trace_excerpt': [_short(r) for r in api_parts[0][1][:12]]})
     ctx.sample({'dma_trace_excerpt': [_short(r) for r in dma_parts[-1][1][:12]]})
     ctx.cov.update({'evaluations': len(api_parts) + len(dma_parts), 'distinct_nontrivial': min(nt, len(distinct)),
@@ -610,11 +640,15 @@ def replay(ctx, path):
     rp = json.load(open(path))['replay']
     drv = ctx.go_build('c11')
     d = rp['driver']
-    tspec = T_API if d['mode'] == 'api' else T_DMA
+    tspec = T_API if d['mode'] == 'api' and not d.get('sys') else T_DMA
     scens = d['scenarios']
-    tag = (rp.get('trace') or [{}])[0].get('tag')
+    tag = str((rp.get('trace') or [{}])[0].get('tag')).split(':gpu')[0]
     one = [s for s in scens if s.get('tag') == tag] or scens
     t, ex, st = run_c11(ctx, drv, d['mode'], one, 'replay')
+    if d.get('sys'):
+        t = sys_trace(t)
+        if t is None:
+            raise vlib.Infra('replay produced no CP/DMA trace')
     before = len(ctx.violations)
     validate(ctx, tspec, t, d['mode'], ex)
     return 1 if len(ctx.violations) > before else 0
